@@ -100,7 +100,8 @@ func runC06tcp(line string) string {
 	default:
 		cfg.LbPolicy = service.LoadBalancePolicy_ROUND_ROBIN
 	}
-	p, err := proc.New(fmt.Sprintf("c06x%d", nextProcSeq()), cfg, hosts)
+	pname := fmt.Sprintf("c06x%d", nextProcSeq())
+	p, err := proc.New(pname, cfg, hosts)
 	if err != nil {
 		return "NEW-FAILED"
 	}
@@ -115,7 +116,10 @@ func runC06tcp(line string) string {
 		}
 		time.Sleep(5 * time.Millisecond)
 	}
-	// the probe connection was relayed to some backend: wait until it is gone again
+	// the probe connection was relayed to some backend: wait until its handler has returned (it made one pick of the
+	// balancer; a handler still on its way would make that pick between two of ours) and it is gone again
+	spx := &simProxy{p: p, name: pname, addr: addr}
+	waitFor(3*time.Second, func() bool { return spx.counter("downstream.cx_destroy_total") >= 1 })
 	waitFor(3*time.Second, func() bool {
 		for _, h := range hosts {
 			if h.ConnCount() != 0 {
